@@ -257,6 +257,9 @@ func referenceLine(l []byte, bh *Header) error {
 		case assemblyIDTag:
 			rf.assemID = fs
 		case md5Tag:
+			if len(f[3:]) > 32 {
+				return errBadHeader
+			}
 			hb := [16]byte{}
 			n, err := hex.Decode(hb[:], f[3:])
 			if err != nil {
